@@ -85,7 +85,8 @@ def conc_val(v, H, shared=None):
         t = gamma.Tfy(lambda: "e")
         return t
     if v == "list":
-        return ["a", 1]
+        sep = ["a"]           # the same inner list object at two places of one displayed value
+        return [sep, 1, sep]
     if v == "bad":
         return gamma.Bad()
     if v == "badlist":
